@@ -97,7 +97,7 @@ def run(tier="quick", seed=0, contracts=None):
         distinct.add(("dip", t))
         try:
             with DIP() as p:
-                p.from_string(t)
+                p.add_string(t)
                 p.parse()
         except Exception:
             pass
